@@ -15,7 +15,12 @@ Record struct_eq (s s' : state) : Prop := mkSE {
   se_next : next s' = next s;
   se_kind : kind_of s' = kind_of s;
   se_top : top s' = top s;
-  se_istop : istop s' = istop s
+  se_istop : istop s' = istop s;
+  se_bdownto : bdownto s' = bdownto s;
+  se_bscalar : bscalar s' = bscalar s;
+  se_blower : blower s' = blower s;
+  se_pdir : pdir s' = pdir s;
+  se_policy : policy s' = policy s
 }.
 
 Lemma struct_eq_refl s : struct_eq s s.
